@@ -132,6 +132,19 @@ impl Word {
         self.init = NO_BITS;
     }
 }
+/// Verification hooks (only compiled with `--cfg endorpersand_lc3_ensemble_verif`):
+/// direct access to the initialization mask, which is otherwise private.
+#[cfg(endorpersand_lc3_ensemble_verif)]
+impl Word {
+    /// The initialization mask: bit i is set iff bit i of the data is considered initialized.
+    pub fn verif_init_mask(&self) -> u16 {
+        self.init
+    }
+    /// Builds a word from explicit data and initialization mask.
+    pub fn verif_from_parts(data: u16, init: u16) -> Self {
+        Self { data, init }
+    }
+}
 impl From<u16> for Word {
     /// Creates a fully initialized word.
     fn from(value: u16) -> Self {
